@@ -104,3 +104,47 @@ class ScriptedRandomState(np.random.RandomState):
         raise UnownedRandomness("RandomState.random_sample used but not scripted")
 
     random = rand = randn = randint = uniform = normal = shuffle = permutation = random_sample
+
+
+class CirqProxy:
+    """Stands in for the `cirq` module held by CirqSimulator.cirq: simulators get a scripted RandomState, the two
+    sampling helpers become choice points that record the exact state they were handed."""
+
+    def __init__(self, chooser):
+        import cirq
+        self._cirq = cirq
+        self._ch = chooser
+
+    def Simulator(self, **kw):
+        kw["seed"] = ScriptedRandomState(self._ch)
+        return self._cirq.Simulator(**kw)
+
+    def DensityMatrixSimulator(self, **kw):
+        kw["seed"] = ScriptedRandomState(self._ch)
+        return self._cirq.DensityMatrixSimulator(**kw)
+
+    def _sample(self, probs, n, indices, repetitions, label, state):
+        support = [i for i in range(len(probs)) if probs[i] > 1e-12]
+        seqs = sequences(len(support), int(repetitions))
+        k = self._ch.choose(len(seqs), label, {"probs": {format(i, f"0{n}b"): float(probs[i]) for i in support},
+                                               "repetitions": int(repetitions), "state": state})
+        out = []
+        for j in seqs[k]:
+            bits = format(support[j], f"0{n}b")
+            out.append([int(bits[q]) for q in indices])
+        return np.array(out, dtype=np.int8).reshape(int(repetitions), len(indices))
+
+    def sample_state_vector(self, state_vector, indices, repetitions=1, **kw):
+        sv = np.asarray(state_vector)
+        n = int(round(np.log2(sv.size)))
+        return self._sample(np.abs(sv.reshape(-1)) ** 2, n, list(indices), repetitions, "sample_state_vector", sv.reshape(-1).copy())
+
+    def sample_density_matrix(self, density_matrix, indices, repetitions=1, **kw):
+        dm = np.asarray(density_matrix)
+        dim = int(round(np.sqrt(dm.size)))
+        dm = dm.reshape(dim, dim)
+        n = int(round(np.log2(dim)))
+        return self._sample(np.real(np.diag(dm)), n, list(indices), repetitions, "sample_density_matrix", dm.copy())
+
+    def __getattr__(self, name):
+        return getattr(self._cirq, name)
